@@ -216,3 +216,11 @@ func itemsString(g *ref.CFG, its []ref.Item) string {
 	}
 	return s
 }
+
+func seq(n int) []int {
+	o := make([]int, n)
+	for i := range o {
+		o[i] = i
+	}
+	return o
+}
